@@ -157,7 +157,7 @@ def eval_property(prop, tier, seed, REPO):
         if bad:
             fails += 1
             rep.violations.append({"obligation": "mpilot/program.py::Program.from_source+run/bounded:model:%s" % bad[0][0], "function": "mpilot/program.py::Program.run",
-                                   "how": "bounded-concrete", "case": {"source": c["source"], "files": c["files"], "dump_results": True, "label": c["label"]},
+                                   "how": "bounded-concrete", "case": {"source": c["source"], "files": c["files"], "dump_results": True, "label": c["label"], "model": ms[mi]},
                                    "real": {k: v for k, v in o.items() if k != "results"}, "violated": sorted(set(b[0] for b in bad)), "violated_detail": bad[:4],
                                    "confirmed": True})
     for mi, pairs in by_model.items():
